@@ -13,7 +13,7 @@ use crate::spec::Item;
 pub static DEF: PropDef = PropDef {
     id: "C14",
     level: "fault_enumeration",
-    rule: "each case: one valid document (real writer or reference encoder; two thirds all known-size, one third with unknown-size masters mixed in) and, at EVERY tag boundary (offset of every element but the first; documents up to 60 elements, else 40 random boundaries), a junk run of length 1-40 drawn from bytes that are not the first byte of any id of the specification (computed per specification, runs of 0x00 included). The damaged stream is parsed with unknown ids never tolerated and the other two tolerance switches varied: next() until the first error, then try_recover(), then next() to the end. The precondition 'the tag after the junk still fits inside every enclosing known-size master after the shift' is evaluated from the layout. When it holds: items before the junk are unchanged, exactly one error is reported, try_recover() succeeds, and every remaining item equals the undamaged parse with offsets shifted by the junk length. In every case (also junk before the first tag / after the last one / precondition false): try_recover() does not panic or exceed its step budget, fails only with UnexpectedEOF or ReadError (also when called again and again after it reported end of input, interleaved with next()), and no item after recovery reports an offset before the position of the reported error. distinct = (depth of the boundary, junk length class, fits / does not fit, junk class); non-trivial iff the boundary is inside at least one master.",
+    rule: "each case: one valid document (real writer or reference encoder; two thirds all known-size, one third with unknown-size masters mixed in) and, at EVERY tag boundary (offset of every element but the first; documents up to 60 elements, else 40 random boundaries), a junk run of length 1-40 drawn from bytes that are not the first byte of any id of the specification (computed per specification, runs of 0x00 included). The damaged stream is parsed with unknown ids never tolerated and the other two tolerance switches varied: next() until the first error, then try_recover(), then next() to the end. The precondition 'the tag after the junk still fits inside every enclosing known-size master after the shift' is evaluated from the layout. When it holds: items before the junk are unchanged, exactly one error is reported, try_recover() succeeds, and every remaining item equals the undamaged parse with offsets shifted by the junk length. One insertion in ten additionally lets the source fail once (transient I/O error) while try_recover() scans: only the always-clauses are judged there. In every case (also junk before the first tag / after the last one / precondition false): try_recover() does not panic or exceed its step budget, fails only with UnexpectedEOF or ReadError (also when called again and again after it reported end of input, interleaved with next()), and no item after recovery reports an offset before the position of the reported error. distinct = (depth of the boundary, junk length class, fits / does not fit, junk class); non-trivial iff the boundary is inside at least one master.",
     assumptions: &["layout of the valid document (reference decoder)", "junk bytes are chosen so that no position inside the junk can start a specification-valid tag"],
     cases_quick: 120_000,
     cases_thorough: 1_500_000,
@@ -155,6 +155,50 @@ fn run(c: &mut Case) {
         if errors.is_empty() {
             if fits || follow.is_some() {
                 c.violation(format!("C14/no-error-reported/{}", jclass), format!("junk {} inserted at {} was not reported at all", hex(&junk), b), wit("no error", &before, &errors, &after, &recovered));
+            }
+            continue;
+        }
+        // one insertion in ten: the source fails once (transient I/O error) at one of the next reads, i.e. while
+        // try_recover() is scanning or shortly after. Only the always-clauses are judged then: no panic, no budget
+        // overrun, try_recover() fails only with end of input or a source error — whatever the scan did with the error.
+        if c.rng.chance(1, 10) {
+            let at = it.get_ref().call + c.rng.usize_below(3);
+            let kind = *c.rng.pick(&[std::io::ErrorKind::Interrupted, std::io::ErrorKind::Other, std::io::ErrorKind::WouldBlock]);
+            it.get_mut().fault_at = Some((at, kind, "verif-transient".into()));
+            c.count("recoveries_with_transient_source_error");
+            let mut bad: Option<(String, String)> = None;
+            for round in 0..12 {
+                it.get_mut().begin_api_call();
+                if round % 4 == 0 {
+                    match recover_ev(&mut it, step_budget(len, before.len() + after.len())) {
+                        Err(cg) => {
+                            bad = Some((format!("C14/try_recover-{}/transient-source-error", cg.sig()), format!("try_recover() {}", cg.text())));
+                            break;
+                        }
+                        Ok(Err(e)) if !matches!(e, ErrRec::Eof { .. } | ErrRec::Read { .. }) => {
+                            bad = Some((format!("C14/try_recover-error-kind/{}/transient-source-error", e.kind()), format!("try_recover() failed with {}", e.short())));
+                            break;
+                        }
+                        Ok(r) => {
+                            if recovered.is_none() {
+                                recovered = Some(r);
+                            }
+                        }
+                    }
+                } else {
+                    match next_ev(&mut it, step_budget(len, before.len() + after.len())) {
+                        Ev::Item(i, o) => after.push((i, o)),
+                        Ev::Err(e) => errors.push(e),
+                        Ev::None => break,
+                        Ev::Caught(cg) => {
+                            bad = Some((format!("C14/next-{}/transient-source-error", cg.sig()), format!("next() {}", cg.text())));
+                            break;
+                        }
+                    }
+                }
+            }
+            if let Some((sig, msg)) = bad {
+                c.violation(sig, msg, wit("panic / budget / wrong error kind around a transient source error during recovery", &before, &errors, &after, &recovered).set("source_error_at_read", J::u(at)));
             }
             continue;
         }
